@@ -224,6 +224,9 @@ pub enum BodyOp {
     LendGuard(usize),
     /// swap the j-th member guard with a member guard of the same type lent by another thread
     SwapLent(usize),
+    /// ask the i-th member guard for a reference to the lock it holds (`guard.mutex()` /
+    /// `guard.rwlock()`), if the guard type offers that, and keep it past the release
+    KeepLockRef(usize),
 }
 
 #[derive(Clone, PartialEq, Eq, Debug, Serialize, Deserialize)]
